@@ -237,10 +237,13 @@ def run_ctor(prog, cls, fn: ast.FunctionDef, env, track):
     Statements whose tests do not mention tracked names are skipped (they cannot decide about them)."""
     ev = Evaluator(prog, cls, dict(env))
     live = set(track)
+    opaque = set()   # locals computed from tracked names whose value the finite evaluation could not determine
 
     def block(stmts):
         for st in stmts:
             if isinstance(st, ast.If):
+                if mentions(st.test, opaque):
+                    raise Unknown(f"a test reads `{norm(st.test)}`, computed from the argument in a way that is not modelled")
                 if not mentions(st.test, live):
                     continue
                 try:
@@ -264,6 +267,24 @@ def run_ctor(prog, cls, fn: ast.FunctionDef, env, track):
                             if k_ is not None and not (isinstance(k_, ast.Constant) and k_.value == "unsafe"):
                                 return ("refuse", f"TypeError from astype(casting={norm(k_)})")
                 targets = st.targets if isinstance(st, ast.Assign) else [st.target]
+                # a local computed from a tracked argument (`fits = len(x) == 2`) is tracked too: a later `if not fits: raise` decides about the argument
+                if st.value is not None and len(targets) == 1 and isinstance(targets[0], ast.Name) and targets[0].id not in track \
+                        and (mentions(st.value, live | opaque) or (isinstance(st.value, ast.Constant) and isinstance(st.value.value, (bool, int, str, type(None))))):
+                    nm = targets[0].id
+                    try:
+                        if mentions(st.value, opaque):
+                            raise Unknown(nm)
+                        val = ev.ev(st.value)
+                        ev.env[nm] = val
+                        live.add(nm)
+                        opaque.discard(nm)
+                    except Raises as r:
+                        return ("refuse", r.exc)
+                    except Unknown:
+                        live.discard(nm)
+                        ev.env.pop(nm, None)
+                        opaque.add(nm)
+                    continue
                 for t in targets:
                     if isinstance(t, ast.Name) and t.id in live:
                         # rebound: `p = p` keeps the value, anything else ends tracking of that name
